@@ -64,6 +64,14 @@ def tag(x):
     return type(x).__name__ + ":" + repr(x)
 
 
+class HarnessBaseException(BaseException):
+    """an exception that is not derived from Exception (like KeyboardInterrupt / SystemExit)"""
+
+
+class WeirdError(Exception):
+    """an Exception subclass outside the usual families (not LookupError / OSError / RuntimeError / ValueError)"""
+
+
 class RecordingSource(DataSource):
     """find_system answers from a table {(key, tag(value)): ("id", x) | ("raise",) | ("none",)};
     get_data raises for ids whose tag is in `raising`, else returns {"tag": "data-of-<tag(id)>"}.
@@ -71,7 +79,8 @@ class RecordingSource(DataSource):
 
     def __init__(self, table, raising, empties=()):
         self.table = table
-        self.raising = set(raising)
+        # tagged id -> exception class (a plain list means RuntimeError)
+        self.raising = dict(raising) if isinstance(raising, dict) else {r: RuntimeError for r in raising}
         self.empties = set(empties)       # (tagged) ids whose data is the empty tree
         self.log = []
 
@@ -79,7 +88,7 @@ class RecordingSource(DataSource):
         self.log.append((0, lookup_key, tag(lookup_value)))
         row = self.table.get((lookup_key, tag(lookup_value)), ("none",))
         if row[0] == "raise":
-            raise RuntimeError("find_system failed")
+            raise (row[1] if len(row) > 1 else RuntimeError)("find_system failed")
         if row[0] == "id":
             return row[1]
         return None
@@ -88,7 +97,7 @@ class RecordingSource(DataSource):
         ok_args = (preceding_data == {}) and (preceding_data_version == "")
         self.log.append((1, tag(system_id) if ok_args else tag(system_id) + "?unexpected-arguments"))
         if tag(system_id) in self.raising:
-            raise RuntimeError("get_data failed")
+            raise self.raising[tag(system_id)]("get_data failed")
         if tag(system_id) in self.empties:
             return {}, "v0"
         return {"tag": "data-of-" + tag(system_id)}, "v1"
@@ -218,7 +227,7 @@ def run_handle(h, tftp, uri, ctx):
         if status == 403:
             return FORBIDDEN, None
         return ERROR, None
-    except Exception:    # anything that would reach the server's internal-error path
+    except (Exception, HarnessBaseException):    # anything that would reach the server's internal-error path
         return ERROR, None
 
 
